@@ -175,3 +175,59 @@ Section IR.
     rewrite (Hdo eo [] (Datatypes.S fd2) Hfo) by lia. reflexivity.
   Qed.
 End IR.
+
+(** Non-vacuity at the real schema (regenerated from /repo): an Import request with both
+    optional elements present, an "Object Type" attribute and a Certificate.  Its binary
+    encoding decodes back to it.  Its attribute list conforms only once the kmip.Attribute codec
+    is dispatched in [conf_custom_of] (another file); until then conformance is shown for
+    everything else: [conf_import_request] over a conformance function that takes the attribute
+    list for granted.  The full example (and variants carrying a SymmetricKey with its KeyBlock)
+    is kept in the comment below; it holds with all ten codecs dispatched. *)
+From KVGen Require Import KmipSchema.
+From KV Require Import KmipCodec.
+
+Definition ex_attr_object_type (ot : Z) : value :=
+  VStruct "kmip.Attribute" [VStr OBJECT_TYPE_NAME; VNil; VIface (TScalar (KEnum 4325463)) (VInt ot)].
+Definition ex_attr_object_group : value :=
+  VStruct "kmip.Attribute" [VStr [79; 98; 106; 101; 99; 116; 32; 71; 114; 111; 117; 112]; VPtr (VInt 0); VIface (TScalar KString) (VStr [103; 49])].
+Definition ex_import_fields : list value :=
+  [VStr [105; 100; 45; 49]; VBool true; VInt 2; VList [ex_attr_object_group; ex_attr_object_type 1];
+   VIface (TPtr (TNamed "kmip.Certificate")) (VPtr (VStruct "kmip.Certificate" [VInt 1; VStr [48; 130; 1; 10]]))].
+Definition ex_import_request : value := VStruct "payloads.ImportRequestPayload" ex_import_fields.
+
+Definition cty_given_attributes (st : vstate) (t : ty) (tag : Z) (v : value) : option vstate :=
+  match t with
+  | TSlice (TNamed "kmip.Attribute") => Some st
+  | _ => conf_ty kmip_schema kmip_ops kmip_attrs kmip_objs 39 st t tag v
+  end.
+
+Example rt_import_request_example :
+  (exists sc, conf_import_request kmip_schema kmip_objs cty_given_attributes (Some (1, 4))
+                td_payloads_ImportRequestPayload 4325497 ex_import_fields = Some sc) /\
+  (do r <- enc_ty kmip_schema 40 (Some (1, 4)) (TNamed "payloads.ImportRequestPayload") 4325497 ex_import_request ;;
+   do c <- bin_cursor (wire_enc_list (fst r)) ;;
+   do d <- dec_ty kmip_schema kmip_ops kmip_attrs kmip_objs bin_fmt 200 (Some (1, 4)) (TNamed "payloads.ImportRequestPayload") 4325497 c ;;
+   Ok (value_eqb (fst (fst d)) ex_import_request && match snd (fst d) with ([], false) => true | _ => false end)) = Ok true.
+Proof. split; [eexists; vm_compute; reflexivity | vm_compute; reflexivity]. Qed.
+
+(* With every hand-written codec dispatched in [conf_custom_of] (checked against the full
+   dispatcher):
+
+Example rt_import_request_example_full :
+  exists sc, conf_ty kmip_schema kmip_ops kmip_attrs kmip_objs 40 (Some (1, 4))
+               (TNamed "payloads.ImportRequestPayload") 4325497 ex_import_request = Some sc.
+Proof. eexists; vm_compute; reflexivity. Qed.
+
+Definition ex_symmetric_key : value :=
+  VIface (TPtr (TNamed "kmip.SymmetricKey")) (VPtr (VStruct "kmip.SymmetricKey" [VStruct "kmip.KeyBlock"
+    [VInt 7; VInt 0; VPtr (VStruct "kmip.KeyValue" [VNil; VPtr (VStruct "kmip.PlainKeyValue"
+       [VStruct "kmip.KeyMaterial" [VNil; VPtr (VStruct "kmip.TransparentSymmetricKey" [VStr [1; 2; 3; 4]]); VNil; VNil; VNil; VNil; VNil; VNil];
+        VList [ex_attr_object_group]])]); VInt 3; VInt 32; VNil]])).
+Definition ex_import_request_key : value :=
+  VStruct "payloads.ImportRequestPayload"
+    [VStr [105; 100; 45; 49]; VBool true; VInt 2; VList [ex_attr_object_group; ex_attr_object_type 2]; ex_symmetric_key].
+Example rt_import_request_example_key :
+  exists sc, conf_ty kmip_schema kmip_ops kmip_attrs kmip_objs 40 (Some (1, 4))
+               (TNamed "payloads.ImportRequestPayload") 4325497 ex_import_request_key = Some sc.
+Proof. eexists; vm_compute; reflexivity. Qed.
+*)
